@@ -182,6 +182,22 @@ pub fn enter_scratch_directory() -> Option<std::path::PathBuf> {
 
 pub const SCRATCH_ENV: &str = "RSSL_SIM_SCRATCH";
 
+/// Scratch parents of campaigns whose supervisor no longer exists (it was killed before it could
+/// clean up) are removed by the next campaign
+pub fn remove_stale_scratch_parents() {
+    let Ok(entries) = std::fs::read_dir(std::env::temp_dir()) else {
+        return;
+    };
+    for e in entries.flatten() {
+        let name = e.file_name().to_string_lossy().to_string();
+        if let Some(pid) = name.strip_prefix("rssl-sim-run-").and_then(|p| p.parse::<u32>().ok())
+            && !std::path::Path::new(&format!("/proc/{pid}")).exists()
+        {
+            let _ = std::fs::remove_dir_all(e.path());
+        }
+    }
+}
+
 /// The supervisor's side: the parent directory of this campaign's workers
 pub fn campaign_scratch_parent() -> std::path::PathBuf {
     std::env::temp_dir().join(format!("rssl-sim-run-{}", std::process::id()))
